@@ -108,6 +108,7 @@ type HarnessResult struct {
 }
 
 type World struct {
+	forkSites map[string]int
 	prog    *ssa.Program
 	pi      *progInfo
 	tt      *TermTable
@@ -319,6 +320,40 @@ func (w *World) chooseN(n int, label string) int {
 
 // backtrack advances the decision vector to the next unexplored alternative.
 func (w *World) backtrack() bool {
+	ok := w.backtrack1()
+	if ok && forkProfile {
+		if w.forkSites == nil {
+			w.forkSites = map[string]int{}
+		}
+		w.forkSites[w.decisions[len(w.decisions)-1].label]++
+	}
+	return ok
+}
+
+var forkProfile = os.Getenv("GOSYM_FORKS") != ""
+
+func (w *World) dumpForks() {
+	if !forkProfile {
+		return
+	}
+	type kv struct {
+		k string
+		v int
+	}
+	var l []kv
+	for k, v := range w.forkSites {
+		l = append(l, kv{k, v})
+	}
+	sort.Slice(l, func(i, j int) bool { return l[i].v > l[j].v })
+	for i, e := range l {
+		if i >= 25 {
+			break
+		}
+		fmt.Fprintf(os.Stderr, "FORKS %6d %s\n", e.v, e.k)
+	}
+}
+
+func (w *World) backtrack1() bool {
 	for len(w.decisions) > 0 {
 		i := len(w.decisions) - 1
 		d := &w.decisions[i]
@@ -678,6 +713,7 @@ func (w *World) Explore(h Harness, openFinds map[string]bool) *HarnessResult {
 		res.Solver = w.sol.stats
 		w.sol.Close()
 		res.Wall = time.Since(t0)
+		w.dumpForks()
 	}()
 	// package initialisation (once per world; not undone)
 	w.trailOn = false
